@@ -295,6 +295,15 @@ class Sys:
             if not self.check(len(c) == n and c.size == n, "align", op, "container_length_wrong",
                                   "container length differs from the number of appended elements", got=len(c), want=n):
                 raise Diverged()
+        if self.kind != "data":
+            # corner containers hold (element, owner) records: every record appended must still be there, paired as it was given
+            # (the harness appends owner = element // 3)
+            for c in self.containers():
+                for i in range(n):
+                    ok, rec = self.call("align", op, lambda: (c.element(i), c.adj(i)), expect=(IndexError,))
+                    if not self.check(ok and int(rec[1]) == int(rec[0]) // 3, "align", op, "corner_record_lost_or_mispaired",
+                                      "a corner container no longer answers (element, owner) as appended", index=i, got=repr(rec)[:60]):
+                        raise Diverged()
         attrs = [("dense", self.de)] + ([("bystander", self.by)] if self.by is not None else [])
         for name, a in attrs:
             ok, ln = self.call("align", op, len, a)
